@@ -24,6 +24,7 @@ structure KeyedGeom (t t' : HT) (k : Nat) (tr : Tr) : Prop where
   effCount : t'.effCount = t.effCount
   effHash : t'.effHash = t.effHash
   ready : t'.hash.isSome
+  pos : ∀ c ∈ tr.calls, 1 ≤ c.m
   settled_case : t.rhHash = none → t'.rhHash = none ∧ t'.count = t.count ∧ t'.hash = t.hash ∧
     ∃ h, t.hash = some h ∧ tr.calls = [⟨h, k, t.count⟩]
   pending_case : t.rhHash.isSome →
@@ -32,7 +33,7 @@ structure KeyedGeom (t t' : HT) (k : Nat) (tr : Tr) : Prop where
       t.clean + 1 ≤ t'.clean ∧ t'.clean < t'.count)
 
 theorem KeyedRes.geom {t t' : HT} {k j : Nat} {tr : Tr} (r : KeyedRes hf t k t' j tr) : KeyedGeom t t' k tr :=
-  ⟨r.bksz, r.cst, r.evs, r.reloc, r.effCount, r.effHash, r.ready,
+  ⟨r.bksz, r.cst, r.evs, r.reloc, r.effCount, r.effHash, r.ready, r.pos,
     fun hn => by
       obtain ⟨h1, h, hh, htr⟩ := r.settled_case hn
       subst h1
@@ -94,7 +95,8 @@ theorem insert_spec {t : HT} (k e : Nat) (inv : Inv hf t) (hr : t.hash.isSome)
   · have g := r.geom
     exact ⟨by simp [wr, g.bksz], by simp [wr, g.cst], by simp [g.evs], by simpa using g.reloc,
       g.effCount, g.effHash,
-      by simpa [wr] using g.ready, by simpa [wr] using g.settled_case, by simpa [wr] using g.pending_case⟩
+      by simpa [wr] using g.ready, by simpa using g.pos, by simpa [wr] using g.settled_case,
+      by simpa [wr] using g.pending_case⟩
 
 end Cstl.Hash
 
@@ -245,7 +247,7 @@ theorem find_spec {t : HT} (k : Nat) (acc : Option (Nat → Node → Bool)) (inv
   have g := r.geom
   refine ⟨r.inv, r.perm, r.size, ?_, b.chain.filter (fun n => n.key = k), ?_, findWalk_ok k acc b.chain⟩
   · exact ⟨g.bksz, g.cst, by simp [g.evs], by simpa using g.reloc, g.effCount, g.effHash, g.ready,
-      by simpa using g.settled_case, g.pending_case⟩
+      by simpa using g.pos, by simpa using g.settled_case, g.pending_case⟩
   · exact (filter_bucket_perm hb r.allAt).symm.trans (r.perm.filter _)
 
 end Cstl.Hash
@@ -331,7 +333,7 @@ theorem erase_spec {t : HT} (k e : Nat) (inv : Inv hf t) (hr : t.hash.isSome)
     simp only
     refine R.Spec.pure ⟨r.inv, ?_, fun _ => ⟨r.perm, r.size⟩, ?_⟩
     · exact ⟨g.bksz, g.cst, by simp [g.evs], by simpa using g.reloc, g.effCount, g.effHash, g.ready,
-        by simpa using g.settled_case, g.pending_case⟩
+        by simpa using g.pos, by simpa using g.settled_case, g.pending_case⟩
     · intro n hn hid
       exfalso
       have hn1 : n ∈ nodes t1 := r.perm.symm.subset hn
@@ -377,8 +379,8 @@ theorem erase_spec {t : HT} (k e : Nat) (inv : Inv hf t) (hr : t.hash.isSome)
       simp only [r.size]
       omega
     · exact ⟨by simp [wr, g.bksz], by simp [wr, g.cst], by simp [g.evs], by simpa using g.reloc,
-        g.effCount, g.effHash, by simpa [wr] using g.ready, by simpa [wr] using g.settled_case,
-        by simpa [wr] using g.pending_case⟩
+        g.effCount, g.effHash, by simpa [wr] using g.ready, by simpa using g.pos,
+        by simpa [wr] using g.settled_case, by simpa [wr] using g.pending_case⟩
     · intro hno
       exact absurd hid (hno n (hbsub n hn))
     · intro n' hn' hid'
